@@ -20,8 +20,14 @@ T = sys.modules["ptera.transform"]
 WATCH = sched.codes_of(T.StackedTransforms) + sched.codes_of(T.SyncedStackedTransforms) + sched.codes_of(T.TransformSet) \
     + [O._tooler.__code__, O._untooler.__code__, O.autotool.__code__] + [PR.Probe._enter.__code__, PR.Probe._exit.__code__,
                                                                           PR.Probe._install_tooling.__code__, PR.Probe._uninstall_tooling.__code__]
-SEL = {"A": ("f > a", "a", lambda x: x + 1), "B": ("f > b", "b", lambda x: (x + 1) * 2), "C": ("f(a) > b", "b", lambda x: (x + 1) * 2)}
-ARG = {"A": 1, "B": 10, "C": 100}
+import ptera.interpret as IN
+# the call path: what every call of an instrumented function runs (handler matching, its caches, the interaction)
+WATCH_CALL = sched.codes_of(O.HandlerCollection) + sched.codes_of(O.BaseOverlay) + sched.codes_of(IN.Interactor) \
+    + sched.codes_of(IN.WorkingFrame) + [getattr(O, n).__code__ for n in ("fits_selector",) if hasattr(O, n)]
+# D and E use the very same selector text: the compiled selector is interned, whatever is cached per selector is shared
+SEL = {"A": ("f > a", "a", lambda x: x + 1), "B": ("f > b", "b", lambda x: (x + 1) * 2), "C": ("f(a) > b", "b", lambda x: (x + 1) * 2),
+       "D": ("f > a", "a", lambda x: x + 1), "E": ("f > a", "a", lambda x: x + 1)}
+ARG = {"A": 1, "B": 10, "C": 100, "D": 1000, "E": 2000}
 PATH = os.path.join(os.path.dirname(os.path.dirname(os.path.abspath(__file__))), "worlds", "thrworld.py")
 COUNT = [0]
 
@@ -67,7 +73,7 @@ def run_one(S, tids, plan):
 def main():
     job = json.load(open(sys.argv[1]))
     tids = job["threads"]
-    S = sched.Scheduler(WATCH)
+    S = sched.Scheduler(WATCH + (WATCH_CALL if job.get("watch") == "call" else []))
     if hasattr(T, "_tooling_lock"):
         coop = sched.CoopRLock(S)
         T._tooling_lock = coop
